@@ -97,15 +97,20 @@ let e2e () = each_line (fun l ->
   let unr = S.contains f 'x' && (S.index f 'x' > 0 || S.length f > 1 && S.contains (S.sub f 1 (S.length f - 1)) 'x') in
   let unr = unr && S.contains (S.sub f 1 (S.length f - 1)) 'x' in
   let main = of_ascii "w/d.frundis" in
-  let files = ref [(main, rs)] and libs = ref [] in
+  let files = ref [(main, rs)] and libs = ref [] and urls = ref [] in
   L.iter (fun p ->
     let p = S.trim p in
     if S.length p > 2 && (S.get p 0) = 'F' then begin
       match S.index_opt p '=' with
       | Some i -> files := !files @ [(unrunes (S.sub p 2 (i - 2)), unrunes (S.sub p (i + 1) (S.length p - i - 1)))]
       | None -> () end
+    else if S.length p > 2 && (S.get p 0) = 'U' then begin
+      match S.index_opt p '=' with
+      | Some i -> let v = S.sub p (i + 1) (S.length p - i - 1) in
+                  urls := !urls @ [(unrunes (S.sub p 2 (i - 2)), if v = "!" then None else Some (unrunes v))]
+      | None -> () end
     else if S.length p > 2 && (S.get p 0) = 'L' then libs := !libs @ [unrunes (S.sub p 2 (S.length p - 2))]) (L.tl parts);
-  let wd = Loop.{ w_existing = L.map of_ascii ["i.png"; "i.pdf"; "i.eps"; "img.png"]; w_fs = !files; w_libdirs = !libs; w_unrestricted = unr } in
+  let wd = Loop.{ w_existing = L.map of_ascii ["i.png"; "i.pdf"; "i.eps"; "img.png"; "."; ".."]; w_fs = !files; w_libdirs = !libs; w_unrestricted = unr; w_urls = !urls } in
   let s = Loop.compile_source (of_ascii name) (nat_of_int md) wd main in
   match s.St.panicked with
   | Some m -> Printf.printf "PANIC %s\n" (runes m)
